@@ -141,6 +141,50 @@ fn oracle<T: Bits, C: ArrayLength + PartialEq>(m: &DenseMatrix<T, C>, want: &Vec
         if zr != wr {
             return Err("(0..rows).zip(iter()).rev() does not pair rows with their indices".into());
         }
+        // positional access from either end and the adaptors built on it (`nth`, `nth_back`, `skip`,
+        // `step_by`, `last`), on `iter()`, `&m` and `iter_mut()`
+        for k in 0..(n + 1).min(4) {
+            let want_f = want.get(k).map(|r| r[0]);
+            let want_b = if k < n { Some(want[n - 1 - k][0]) } else { None };
+            if m.iter().nth(k).map(|r| r[0].bits()) != want_f {
+                return Err(format!("iter().nth({}) is not row {}", k, k));
+            }
+            if m.iter().nth_back(k).map(|r| r[0].bits()) != want_b {
+                return Err(format!("iter().nth_back({}) is not row rows-1-{}", k, k));
+            }
+            if m.iter().rev().nth(k).map(|r| r[0].bits()) != want_b || m.iter().rev().skip(k).next().map(|r| r[0].bits()) != want_b {
+                return Err(format!("iter().rev().nth({k}) / .rev().skip({k}).next() is not row rows-1-{k}"));
+            }
+            if (&*m).into_iter().rev().skip(k).next().map(|r| r[0].bits()) != want_b {
+                return Err(format!("(&m).into_iter().rev().skip({}) is not row rows-1-{}", k, k));
+            }
+            let mut c2 = m.clone();
+            if c2.iter_mut().nth_back(k).map(|r| r[0].bits()) != want_b || c2.iter_mut().rev().skip(k).next().map(|r| r[0].bits()) != want_b {
+                return Err(format!("iter_mut().nth_back({k}) / .rev().skip({k}) is not row rows-1-{k}"));
+            }
+            if c2.iter_mut().nth(k).map(|r| r[0].bits()) != want_f {
+                return Err(format!("iter_mut().nth({}) is not row {}", k, k));
+            }
+        }
+        for step in [2usize, 3] {
+            let got: Vec<u64> = m.iter().rev().step_by(step).map(|r| r[0].bits()).collect();
+            let wantv: Vec<u64> = (0..n).rev().step_by(step).map(|i| want[i][0]).collect();
+            if got != wantv {
+                return Err(format!("iter().rev().step_by({}) does not visit rows rows-1, rows-1-{}, …", step, step));
+            }
+            let got: Vec<u64> = m.iter().step_by(step).map(|r| r[0].bits()).collect();
+            let wantv: Vec<u64> = (0..n).step_by(step).map(|i| want[i][0]).collect();
+            if got != wantv {
+                return Err(format!("iter().step_by({}) does not visit rows 0, {}, …", step, step));
+            }
+        }
+        if m.iter().last().map(|r| r[0].bits()) != want.last().map(|r| r[0]) {
+            return Err("iter().last() is not the last row".into());
+        }
+        let (lo, hi) = m.iter().size_hint();
+        if lo > n || hi.map(|h| h < n).unwrap_or(false) {
+            return Err(format!("iter().size_hint() = ({}, {:?}) does not bracket rows = {}", lo, hi, n));
+        }
     }
     let size = std::mem::size_of::<T>();
     if m.stride() < C::USIZE || (m.stride() * size) % align != 0 {
